@@ -77,6 +77,9 @@ def strategy(tier):
             "comments": draw(st.lists(st.integers(0, nrows + 1), max_size=3)),
             "meta_pos": draw(st.lists(st.integers(0, nrows + 1), min_size=4, max_size=4)),
             "permute_cols": draw(st.booleans()),
+            # a file need not hold a forecast (or an observation) column: p<t> / q<level> columns alone make it a valid file
+            "no_fcst": draw(st.sampled_from([False, False, False, True])),
+            "no_obs": draw(st.sampled_from([False, False, True])),
             # numbers used in the e<member> column names (taken from the front): need not start at 0 or be contiguous
             "member_ids": draw(st.sampled_from([[0, 1, 2, 3], [0, 1, 2, 3], [1, 2, 3, 4], [1, 2, 4, 7], [4, 1, 2, 0], [10, 3, 7, 5]])),
         }
@@ -142,9 +145,13 @@ def render(spec, style):
     if elev_col != "none":
         header.append(elev_col)
     data_cols = []
-    if d.get("obs") is not None:
+    has_pq = bool(d.get("thresholds") or d.get("quantiles"))       # the header must name at least one of obs / fcst / p* / q*
+    has_obs = d.get("obs") is not None and not (style.get("no_obs") and style.get("no_fcst") and has_pq)
+    has_fcst = not (style.get("no_fcst") and has_pq)
+    if has_obs:
         data_cols.append(("obs", None))
-    data_cols.append(("fcst", None))
+    if has_fcst:
+        data_cols.append(("fcst", None))
     if d.get("pit") is not None:
         data_cols.append(("pit", None))
     for k, t in enumerate(d.get("thresholds") or []):
@@ -249,7 +256,7 @@ def render(spec, style):
         inserts.append((min(pos, len(lines)), "# some free comment %d" % pos))
     for pos, text in sorted(inserts, key=lambda t: -t[0]):
         lines.insert(pos, text)
-    exp = {"cells": expected, "data_cols": data_cols, "var": var, "has_obs": d.get("obs") is not None, "has_pit": d.get("pit") is not None,
+    exp = {"cells": expected, "data_cols": data_cols, "var": var, "has_obs": has_obs, "has_fcst": has_fcst, "has_pit": d.get("pit") is not None,
            "thresholds": list(d.get("thresholds") or []), "quantiles": list(d.get("quantiles") or []), "members": d.get("members", 0) if d.get("ens") is not None else 0,
            "others": sorted((d.get("other") or {}).keys()), "by_id": id_col != "none", "ncoord": ncoord,
            "member_ids": member_ids if d.get("ens") is not None else []}
@@ -337,9 +344,14 @@ def check_file(case, ctx):
     if sorted(f for f in inp.other_fields if f != "pit") != exp["others"]:   # both readers also list pit among the other fields
         ctx.fail("C09/other-fields", sub, "other fields %r, header has %r" % (sorted(inp.other_fields), exp["others"]))
         return
-    if (inp.obs is None) != (not exp["has_obs"]) or (inp.pit is None) != (not exp["has_pit"]):
-        ctx.fail("C09/presence", sub, "obs/pit presence: obs %s pit %s; header has obs=%s pit=%s" % (inp.obs is not None, inp.pit is not None, exp["has_obs"], exp["has_pit"]))
+    if (inp.obs is None) != (not exp["has_obs"]) or (inp.pit is None) != (not exp["has_pit"]) or (inp.fcst is None) != (not exp.get("has_fcst", True)):
+        ctx.fail("C09/presence", sub, "obs/fcst/pit presence: obs %s fcst %s pit %s; header has obs=%s fcst=%s pit=%s"
+                 % (inp.obs is not None, inp.fcst is not None, inp.pit is not None, exp["has_obs"], exp.get("has_fcst", True), exp["has_pit"]))
         return
+    if not exp["has_obs"] and not exp.get("has_fcst", True):
+        ctx.label("neither-obs-nor-fcst")
+    elif not exp.get("has_fcst", True):
+        ctx.label("no-fcst-column")
     th_pos = dict((float(t), j) for j, t in enumerate(inp.thresholds))
     q_pos = dict((round(float(q), 9), j) for j, q in enumerate(inp.quantiles))
     d = spec["inputs"][0]
